@@ -41,8 +41,18 @@ class ErrorInfoModel:
 
 class Model:
     def __init__(self, tmpl: dict, plan: list, handler: Handler | None,
-                 case_once: bool = True, guard_tags: bool = True) -> None:
+                 case_once: bool = True, guard_tags: bool = True,
+                 leaky_scope: bool = False) -> None:
         self.tree = tmpl["tree"]
+        # marker variables (tal:define="wK 'lit'", read as ${wK | 'unset'}):
+        # a local definition ends with its element - also when the element
+        # is left by an exception that an outer tal:on-error then handles.
+        # leaky_scope=True is the variant that skips the restoration on
+        # the exceptional path (what the code at hand does).
+        self.leaky_scope = leaky_scope
+        self.mlocals: dict[str, str] = {}
+        self.mglobals: dict[str, str] = {}
+        self.scope_relevant = False
         self.probe = Probe(tmpl["sites"], plan)
         self.handler = handler
         self.out: list[str] = []
@@ -218,6 +228,9 @@ class Model:
                 # define
                 self.lists[p[1]] = self.lists.get(p[1], 0) + 1
                 vals.append(str(self.lists[p[1]]))
+            elif p[0] == "var":
+                vals.append(self.mlocals.get(p[1]) or
+                            self.mglobals.get(p[1]) or "unset")
             elif p[0] == "expr":
                 vals.append(("v", self.convert(self.ev(p[1]), escape)))
             else:
@@ -314,10 +327,37 @@ class Model:
             finally:
                 self.fn_depth -= 1
             return
-        for scope, name, e in n["define"]:
-            if e["k"] == "lit" and name.startswith("L"):
-                self.lists[name] = 0        # a fresh list at this reach
-            self.ev(e)
+        bound: list = []
+        try:
+            for scope, name, e in n["define"]:
+                if e["k"] == "marker":
+                    if scope == "global":
+                        self.mglobals[name] = e["s"]
+                    else:
+                        bound.append((name, self.mlocals.get(name)))
+                        self.mlocals[name] = e["s"]
+                    continue
+                if e["k"] == "lit" and name.startswith("L"):
+                    self.lists[name] = 0        # a fresh list at this reach
+                self.ev(e)
+            self._element_rest(n, switch_state)
+        except BaseException:
+            if bound:
+                self.scope_relevant = True
+                if not self.leaky_scope:
+                    self._restore(bound)
+            raise
+        else:
+            self._restore(bound)
+
+    def _restore(self, bound: list) -> None:
+        for name, old in reversed(bound):
+            if old is None:
+                self.mlocals.pop(name, None)
+            else:
+                self.mlocals[name] = old
+
+    def _element_rest(self, n: dict, switch_state) -> None:
         if n["case"] is not None:
             # only ever generated directly under a switch element
             if switch_state["matched"]:
@@ -461,6 +501,7 @@ class Model:
         res["handler"] = list(self.handler.calls) if self.handler else []
         res["handled"] = self.handled
         res["guard_relevant"] = self.guard_relevant
+        res["scope_relevant"] = self.scope_relevant
         res["err_records"] = self.err_records
         return res
 
